@@ -422,7 +422,7 @@ func (m *Model) chain(a *Node, item any, emit emitFn) *merr {
 }
 
 func (m *Model) markObject(o map[string]any) {
-	if len(o) >= 2 {
+	if len(o) >= 2 && !membersInKeyOrder() {
 		m.env.orderOpen = true
 	}
 }
